@@ -19,7 +19,7 @@ func init() {
 			"(5) Insert is called only from MemTable.Put/Delete with MemTable.mu held exclusively; the IsImmutable test dominates Insert; immutable is only ever stored true; SwitchToNewMemTable marks the old table before publishing the new one under the pool's write lock; " +
 			"(6) Iterator.isVisible ⇔ snapshot == 0 ∨ seq ≤ snapshot (table), Next/Seek/SeekToFirst each contain the skip-invisible loop and Valid tests visibility; MemTable.Put/Delete keep nextSeqNum under a > guard.",
 		NotDecided: "what concurrent readers observe under all interleavings (needs schedules); memory-model arguments beyond 'links are atomic.Pointer and published after initialisation'.",
-		Rules:      []func(*Ctx, *Reporter){ruleMemComparator, ruleMemFind, ruleMemInsert, ruleMemImmutableFields, ruleMemSingleWriter, ruleMemImmutable, ruleMemVisibility},
+		Rules:      []func(*Ctx, *Reporter){ruleMemComparator, ruleMemFind, ruleMemInsert, ruleMemImmutableFields, ruleMemSingleWriter, ruleMemImmutable, ruleMemVisibility, ruleMemTableGetTable},
 	})
 }
 
